@@ -214,7 +214,18 @@ var quoted = regexp.MustCompile("\"[^\"]*\"|'[^']*'")
 func readErrClass(e string) string {
 	obj := "session"
 	if ms := unableToRead.FindAllStringSubmatch(e, -1); len(ms) > 0 {
-		obj = ms[len(ms)-1][1]
+		// the chain of objects being read, without repeats and without a leading "run" (runs wrap events and results):
+		// "unable to read trigger: unable to read contact" -> trigger.contact; "unable to read run 0: unable to read event" -> event
+		var chain []string
+		for _, m := range ms {
+			if len(chain) == 0 || chain[len(chain)-1] != m[1] {
+				chain = append(chain, m[1])
+			}
+		}
+		if len(chain) > 1 && chain[0] == "run" {
+			chain = chain[1:]
+		}
+		obj = strings.Join(chain, ".")
 	}
 	if m := fieldInErr.FindStringSubmatch(e); m != nil {
 		return obj + ":" + bracketed.ReplaceAllString(m[1], "[]")
